@@ -7,6 +7,7 @@ import OpusProofs.SilkParamsRangeBridge
 import OpusProofs.SilkParamsRangeInvGain
 import OpusProofs.SilkSynthIdxCore
 import OpusProofs.SilkSynthIdxHist
+import OpusProofs.SilkSynthIdxParams
 /-
   C18 — SILK side information always dequantises to stable, in-range parameters.
 
@@ -664,5 +665,37 @@ example : HistOk resetSt hist ∧
        (1, 0, 100, 10445, 8)] ∧
     (histFrames resetSt hist).map (fun p => (frameStep p.1 p.2).1.all.length) = [127, 68, 67, 93, 61, 45] := by
   decide +kernel
+
+open Opus.SilkSynthIdx in
+/-- `silk_decode_parameters` (silk/decode_parameters.c:35-115) subscripts in bounds — closing the chain
+    "any bytes → indices in range (C03) → parameters in range (C18) → every table read and buffer access in
+    bounds (this bridge)" for the SILK frame decoder.  For EVERY index set the symbol decoder can produce
+    (C03 `IndicesOk`, the conclusion of `OpusProps.C03.silkSyms_decode_indices_in_range` for every range-decoder
+    state), every rate and `nb_subfr ∈ {2,4}`, every interpolation factor, reset flag and loss count: the reads of
+    `GainsIndices[0..nb)`, `NLSFIndices[0..order]`, `LTPIndex[k]`, `prevNLSF_Q15`; the pointer table
+    `silk_LTP_vq_ptrs_Q7[ PERIndex ]` (3 entries; `PERIndex ≤ 2`); the codebook rows
+    `cbk_ptr_Q7[ LTPIndex[k]·LTP_ORDER + i ]` (`LTPIndex[k] < 8 << PERIndex` = the number of rows of that
+    codebook: `ltpTables_ok`, on the regenerated tables); `silk_LTPScales_table_Q14[ LTP_scaleIndex ]` (3 entries);
+    and the writes of `Gains_Q16`, `PredCoef_Q12[0..1]`, `pitchL`, `LTPCoef_Q14`, `prevNLSF_Q15` all lie inside
+    their arrays.  (The table reads inside silk_gains_dequant / silk_NLSF_decode / silk_NLSF2A /
+    silk_decode_pitch are `nlsf_decode_ordered`, `nlsf2a_passes_stability`, `pitch_in_range`: no `.oob`.) -/
+theorem decode_parameters_indices_in_bounds {rate : Opus.SilkSyms.Rate} {nb cc ps : Nat} {pl : Int}
+    {ix : Opus.SilkSyms.Indices} (h : Opus.SilkSymsProofs.IndicesOk rate nb cc ps pl ix) (hnb : nb = 2 ∨ nb = 4)
+    (interp : Int) (ffar : Bool) (lossCnt : Int) :
+    AllIn (cfgOf rate.kHz nb) (paramsAccesses (paramsInOf rate nb ix interp ffar lossCnt)) ∧
+    SilkSynth.ltpVqPtrsOk = 1 ∧ SilkSynth.ltpVqSize0 = 8 ∧ SilkSynth.ltpVqSize1 = 16 ∧ SilkSynth.ltpVqSize2 = 32 :=
+  ⟨paramsAccesses_ok _ (paramsOk_of_indicesOk h hnb interp ffar lossCnt), ltpTables_ok.1, ltpTables_ok.2.2.2.2.1,
+   ltpTables_ok.2.2.2.2.2.1, ltpTables_ok.2.2.2.2.2.2⟩
+
+open Opus.SilkSynthIdx in
+/- voiced WB frame, third codebook, last row (31): reads LTP_vq_2[155..159]; one row further would be out of bounds -/
+example : extentsStr (paramsAccesses (ParamsIn.mk 16 4 2 2 [31, 0, 7, 31] 2 3 false 1)) [.ltpVq2, .ltpCoef, .predCoef] =
+      "LTP_vq_2:r=0..159,w=- LTPCoef_Q14:r=-,w=0..19 PredCoef_Q12:r=0..31,w=0..31" ∧
+    ¬ AllIn (cfgOf 16 4) (paramsAccesses (ParamsIn.mk 16 4 2 2 [32, 0, 7, 31] 2 3 false 1)) := by
+  refine ⟨by decide +kernel, ?_⟩
+  intro h
+  have := h ⟨.ltpVq2, 160, 165, false⟩ (by decide +kernel)
+  revert this
+  decide
 
 end OpusProps.C18
